@@ -63,7 +63,7 @@ def framing(ck, thorough, binp):
     ck.add_tlc(closed, "Framing_closed (reader automaton, all inputs)")
     mcfg = open(os.path.join(vlib.SPEC, "Framing_mc.cfg")).read()
     if thorough:
-        mcfg = mcfg.replace("MaxMsgs = 2", "MaxMsgs = 3").replace("ChunkMax = 2", "ChunkMax = 4")
+        mcfg = mcfg.replace("MaxMsgs = 2", "MaxMsgs = 3").replace("ChunkMax = 2", "ChunkMax = 2")
     mc = vlib.tlc("MCFraming", "mc.cfg", files={"mc.cfg": mcfg}, workers=8, timeout=900, xss="512m")
     if not mc.ok:
         raise vlib.InfraError("Framing model violates %s: spec and code model disagree" % mc.violated)
@@ -76,7 +76,7 @@ def framing(ck, thorough, binp):
     # --- GEN --------------------------------------------------------------------------------------
     p = vlib.run([binp, "catalogue"])
     rows = json.loads(p.stdout.decode())
-    num = 4000 if thorough else 700
+    num = 4000 if thorough else 600
     sim = vlib.tlc("MCFramingSim", "Framing_sim.cfg", files={"FramingCatalogue.tla": catalogue_module(rows)}, workers=1,
                    simulate="num=%d" % num, depth=800, tlc_seed=ck.seed, timeout=900, xss="512m")
     if sim.violated:
@@ -178,7 +178,7 @@ def conn(ck, thorough):
                               "(the framing half and the model checks above were completed)" % (missing, vlib.REPO))
 
     # --- GEN: peer scripts on the real conn -------------------------------------------------------
-    num = 2500 if thorough else 350
+    num = 2500 if thorough else 300
     sim = vlib.tlc("MCJsonRpcSim", "JsonRpc_sim.cfg", workers=1, simulate="num=%d" % num, depth=90, tlc_seed=ck.seed, timeout=900)
     if sim.violated:
         raise vlib.InfraError("conn simulation violated %s in the model" % sim.violated)
@@ -282,7 +282,7 @@ def main():
         raise
     ck.set("traces_validated_against_impl", n1 + n2)
     ck.set("bounds", {"framing": "closed reader: all inputs; bounded: <=%d messages x 20 variants x all cut points x chunks 1..%d|rest"
-                                 % ((3, 4) if thorough else (2, 2)),
+                                 % ((3, 2) if thorough else (2, 2)),
                       "conn": "%s, peer 1 notification + 1 call, cancel at every point" % ("3 callers x 2 notifiers" if thorough else "2 callers x 1 notifier (MC); 3 x 2 (scripts)")})
     ck.assume("header whitespace is ASCII; ParseInt's int32 boundary is modelled as 'more than 10 significant digits'")
     ck.assume("a body is decodable exactly when the bytes handed to the decoder are the complete JSON body that was sent")
